@@ -347,6 +347,9 @@ EXTRA["C17"] = " The quick tier adds 6000 random names of four and five tokens."
 EXTRA["C02"] += (" Every answer is snapshotted when the call returns, the border matrix is asked again after the distance matrix, and the adjacency / "
                  "distance getters are asked once more with only_position / only_orientation: each partial matrix must be exactly the part of the "
                  "full matrix between cells at one position / with one rotation (PartClause).")
+EXTRA["C04"] += (" Within the brute-force bound the adjacency getter is also asked with its documented options on the same object: the 2N x 2N "
+                 "double-cover matrix, the row-swept double-cover matrix and the half matrix without opposing neighbours are the intermediate "
+                 "states of Fold.tla (M, the sweep, the cut) and are compared with the oracle's face relation (OptClause).")
 EXTRA["C05"] += " Equidistant radial grids are written alternately as range(start, stop, step) and linspace(start, stop, n) texts."
 EXTRA["C08"] += (" The N x N getters are also asked with their documented options (only_upper=False, include_opposing_neighbours=False) on the "
                  "same objects, in the orders the model generates.")
